@@ -14,10 +14,16 @@ def isolated(patch, checks, tier):
     """same thing in a scratch worktree (NV_REPO points the harness at it): /repo stays untouched, so background
     sweeps that use /repo are not disturbed"""
     wt = "/tmp/wt_seedrun_%d" % os.getpid()
-    head = subprocess.run(["git", "-C", REPO, "rev-parse", "HEAD"], capture_output=True, text=True).stdout.strip()
+    head = subprocess.run(["git", "-C", REPO, "rev-parse", os.environ.get("SEED_BASE", "HEAD")], capture_output=True,
+                          text=True).stdout.strip()
     subprocess.run(["git", "-C", REPO, "worktree", "add", "-q", "--detach", wt, head], check=True)
     try:
-        subprocess.run(["git", "-C", wt, "apply", patch], check=True)
+        a = subprocess.run(["git", "-C", wt, "apply", patch])
+        if a.returncode:
+            a = subprocess.run(["git", "-C", wt, "apply", "--3way", patch])
+        if a.returncode:
+            print("PATCH DOES NOT APPLY to %s" % head)
+            return
         env = dict(os.environ, NV_REPO=wt)
         t = subprocess.run(["/venv/bin/python", "-m", "pytest", "-q", "-p", "no:cacheprovider", "-x"], cwd=wt,
                            env=dict(env, PYTHONPATH=wt), capture_output=True, text=True)
